@@ -227,7 +227,10 @@ func (r *Transport) writeLoop() {
 					r.mu.Lock()
 					if reconnectErr := r.reconnect(tr); reconnectErr != nil {
 						r.mu.Unlock()
-						writeOrDone(r.ctx, writeRes{err: fmt.Errorf("reconnect cause[%v]: %w", err, reconnectErr)}, r.writeResCh[data.id])
+						r.writeResMu.RLock()
+						resCh := r.writeResCh[data.id]
+						r.writeResMu.RUnlock()
+						writeOrDone(r.ctx, writeRes{err: fmt.Errorf("reconnect cause[%v]: %w", err, reconnectErr)}, resCh)
 						// the redial budget is exhausted and nobody serves writeReqCh any more:
 						// close the transport so that pending and later writes fail instead of blocking.
 						r.cancel()
